@@ -40,8 +40,13 @@ Theorem C16_traversal_no_duplicates :
 Proof. intros. split; [apply elems_no_duplicates|apply running_ids_functional]. Qed.
 Print Assumptions C16_traversal_no_duplicates.
 
-(* NOT PROVED as a theorem: that the traversal reaches every element object of the tree (completeness of [elems] with respect
-   to [all_uids_conn]); it is decided per generated circuit on the implementation's observed order (sorted id lists). *)
+(* the traversal reaches exactly the element objects of the tree (sub-circuits of containers included), for any fuel that is not
+   smaller than the nesting depth: together with the previous theorem, every element is listed exactly once *)
+Theorem C16_traversal_exactly_the_elements :
+  forall f c, (depth_conn c <= f)%nat -> forall u, In u (all_uids_conn f c) <-> In u (map ie_uid (elems f c)).
+Proof. intros f c H u. split; [apply traversal_complete; auto|apply traversal_sound; auto]. Qed.
+Print Assumptions C16_traversal_exactly_the_elements.
+
 Example C16_nonvacuous :
   let es := [mkIE 0 [82%N] [] [[82%N]] []; mkIE 1 [67%N] [] [[67%N]] []; mkIE 2 [82%N] [97%N] [[82%N]] []; mkIE 3 [82%N] [] [[82%N]] []] in
   map snd (typed_ids es) = [1; 1; 2; 3]%nat /\ map snd (names es) = [[82; 95; 49]; [67; 95; 49]; [82; 95; 97]; [82; 95; 51]]%N.
